@@ -429,7 +429,8 @@ Definition t_std : table := [Some (OInh 0, false); Some (OInh 1, false); Some (O
 (* Where the text of a builtin that runs in a CHILD (a stage of a pipeline) goes: print_stdout / print_stderr write to
    the child's descriptors 1 / 2 -- except when the builtin is the last stage of a CAPTURED pipeline: then
    try_run_builtin_in_subprocess passes capture = true, the text is stored in the child's own CommandResult and is
-   lost when the child exits (None).  bcfix = notes/C04-fix-6.patch (capture := false in the child). *)
+   lost when the child exits (None).  bcfix = /repo a7a8308 (capture := false in the child): true is the code as it is,
+   false the code before it (regression example only). *)
 Definition builtin_child_text (bcfix capture last : bool) (k : kid) : option (option obj * option obj) :=
   if capture && last && negb bcfix then None
   else Some (option_map fst (lookup (tab (k_proc k)) 1), option_map fst (lookup (tab (k_proc k)) 2)).
